@@ -157,10 +157,17 @@ def run(chk):
             V = haar(rng, d)
         info = {"kind": "covariance", "method": method, "d": d, "eigenvalues": ev, "dkmax": dkmax, "unique": unique, "process_tensor": storage}
 
-        def solve(Hh, Oo, rr):
+        # dissipative systems in every third case (never in the closed-system cases 7, 8): real decay operators, which the complex
+        # basis change turns into operators with a complex, non-symmetric A^dagger A
+        diss = it % 3 == 1 and it not in (7, 8)
+        Lops = [np.diag(np.ones(d - 1), 1).astype(complex), np.diag([1.0] + [0.0] * (d - 1)).astype(complex)] if diss else []
+        info["dissipative"] = diss
+
+        def solve(Hh, Oo, rr, Ls=()):
+            mk_sys = lambda: oqupy.System(Hh, gammas=[0.3, 0.15][:len(Ls)], lindblad_operators=list(Ls)) if len(Ls) else oqupy.System(Hh)
             bath = oqupy.Bath((Oo + Oo.conj().T) / 2, _corr)
             if method == "tempo":
-                return np.array(quiet(oqupy.Tempo(oqupy.System(Hh), bath, par, rr, 0.0, unique=unique).compute, 0.4, progress_type="silent").states)
+                return np.array(quiet(oqupy.Tempo(mk_sys(), bath, par, rr, 0.0, unique=unique).compute, 0.4, progress_type="silent").states)
             if method == "pttempo":
                 pt = quiet(oqupy.pt_tempo_compute, bath, 0.0, 0.4, parameters=par, unique=unique,
                            process_tensor_file=True if storage == "file-backed" else None, progress_type="silent")
@@ -172,7 +179,7 @@ def run(chk):
                 if it % 2 == 0:
                     from harness.c03 import look_at
                     look_at(pt)              # reading a process tensor through its accessors (transformed or not) changes nothing
-                out = np.array(quiet(oqupy.compute_dynamics, oqupy.System(Hh), initial_state=rr, process_tensor=pt, progress_type="silent").states)
+                out = np.array(quiet(oqupy.compute_dynamics, mk_sys(), initial_state=rr, process_tensor=pt, progress_type="silent").states)
                 if storage == "file-backed":
                     pt.remove()
                 elif storage.startswith("exported+imported"):
@@ -181,13 +188,14 @@ def run(chk):
                     shutil.rmtree(dd_, ignore_errors=True)
                 return out
             X = Hh
-            s = oqupy.TimeDependentSystemWithField(lambda t, f: X + 0.1 * f.real * X @ X)
+            s = oqupy.TimeDependentSystemWithField(lambda t, f: X + 0.1 * f.real * X @ X, gammas=[(lambda t, f, g_=g_: g_) for g_ in [0.3, 0.15][:len(Ls)]],
+                                                   lindblad_operators=[(lambda t, f, L_=L_: L_) for L_ in Ls])
             mfs = oqupy.MeanFieldSystem([s], field_eom=lambda t, st, f: -0.1 * f + 0.2 * np.trace(st[0] @ X))
             dyn = quiet(oqupy.MeanFieldTempo(mfs, [bath], par, [rr], 0.2 + 0j, 0.0, unique=unique).compute, 0.4, progress_type="silent")
             return np.array(dyn.system_dynamics[0].states)
         try:
-            base = solve(H, O, rho0)
-            rotd = solve(V @ H @ V.conj().T, V @ O @ V.conj().T, V @ rho0 @ V.conj().T)
+            base = solve(H, O, rho0, Lops)
+            rotd = solve(V @ H @ V.conj().T, V @ O @ V.conj().T, V @ rho0 @ V.conj().T, [V @ L_ @ V.conj().T for L_ in Lops])
         except Exception as ex:
             chk.fail("covariance-raises", f"{method} raises {ex!r}", info)
             continue
